@@ -300,11 +300,11 @@ class RectanglePixelRegion(PixelRegion):
         """
         Return the x, y coordinate pairs that define the corners.
         """
-        corners = [(-self.width / 2, -self.height / 2),
-                   (self.width / 2, -self.height / 2),
-                   (self.width / 2, self.height / 2),
-                   (-self.width / 2, self.height / 2),
-                   ]
+        # halve first: the negative of an unsigned numpy integer wraps
+        # around
+        hw = self.width / 2.
+        hh = self.height / 2.
+        corners = [(-hw, -hh), (hw, -hh), (hw, hh), (-hw, hh)]
         rotmat = [[np.cos(self.angle), np.sin(self.angle)],
                   [-np.sin(self.angle), np.cos(self.angle)]]
 
